@@ -1,19 +1,238 @@
-import S3V.Model.ErrorDoc
-import S3V.Spec.ErrorDoc
+import S3V.Thm.ErrorDoc
 /-!
 # C04 — every request gets a response; every error is a well-formed S3 error (property theorems only)
+
+What is proved here, about the model of `serialize_error` (`S3V.ErrorDoc`, tied to the Rust by the `errdoc`
+correspondence run) and the tables regenerated from `error/generated.rs` and the two AWS documentation
+sources (`S3V.Gen.Errors`, tie A):
+
+* the status table agrees with the documentation, for every generated code;
+* code names survive `as_str` / `from_bytes`;
+* the error document is read back, by an independent reader of the error-document grammar, to exactly the
+  code, message and request id of the error — for all strings XML can carry that contain no carriage return
+  (`_partial`; the full statement is false of the code, see `S3V/Findings/C04.lean`);
+* the status rule (override, else table, else 500) and the header rule;
+* the panics on these paths that are pure logic cannot happen (`unreachable!()` in `as_str`, `unwrap()` in
+  `FromStr`, `unwrap()` in `fmt_content_length`).
+
+What is **not** proved (and cannot be, in Lean): that `S3Service::call` never panics and never returns
+`Err` for a problem in the request.  That half of the property is covered by the `fuzzcall` run only.
 -/
 namespace S3V.C04
-open S3V S3V.Gen.Errors S3V.ErrorDoc S3V.ErrorDocSpec
+open S3V S3V.Gen.Errors S3V.ErrorDoc S3V.ErrorDocSpec S3V.ErrorDocThm
 
-/-- enumeration of the generated codes is complete (the lift from a table check to `∀ c`) -/
+/-! ## the generated table -/
+
+/-- enumeration of the generated codes is complete (lifts a table check to `∀ c`) -/
 theorem C04_codes_enumerated (c : Code) : c ∈ Code.all := by
   cases c <;> decide
 
 /-- clause "with the HTTP status that the S3 error-code table assigns to the code": for every generated
-    code the status in `S3ErrorCode::status_code` is one AWS documents for that code (`none` = N/A) -/
+    code, what `S3ErrorCode::status_code` returns is a status AWS documents for that code
+    (`none` = documented as N/A; the specification is the set of statuses of both documentation sources) -/
 theorem C04_status_table_matches_docs (c : Code) : implStatus c ∈ docStatuses c := by
   have h : Code.all.all (fun c => decide (implStatus c ∈ docStatuses c)) = true := by decide +kernel
   exact of_decide_eq_true (List.all_eq_true.mp h c (C04_codes_enumerated c))
+
+/-- every code name either documentation source lists that is an identifier has a variant
+    (what is left out are the four `KMS.*` names, which contain a dot) -/
+theorem C04_documented_codes_have_variants :
+    ∀ n ∈ docNames, (n.all fun b => isNameChar b && b != 46) = true → ∃ c : Code, variantIdent c = n := by
+  have h : docNames.all (fun n => !(n.all fun b => isNameChar b && b != 46)
+      || Code.all.any (fun c => variantIdent c == n)) = true := by decide +kernel
+  intro n hn hid
+  have := List.all_eq_true.mp h n hn
+  rw [hid] at this
+  simp only [Bool.not_true, Bool.false_or, List.any_eq_true, beq_iff_eq] at this
+  obtain ⟨c, _, hc⟩ := this
+  exact ⟨c, hc⟩
+
+/-- `as_static_str` of a generated code is the code's identifier (`STATIC_CODE_LIST[as_enum_tag]`) -/
+theorem C04_static_name (c : Code) : asStaticStr (.known c) = some (variantIdent c) := by
+  have h : Code.all.all (fun c => asStaticStr (.known c) == some (variantIdent c)) = true := by decide +kernel
+  exact eq_of_beq (List.all_eq_true.mp h c (C04_codes_enumerated c))
+
+/-- `from_bytes` of a generated code's identifier is that code -/
+theorem C04_from_bytes_name (c : Code) : fromBytes (variantIdent c) = some (.known c) := by
+  have h : Code.all.all (fun c => fromBytes (variantIdent c) == some (.known c)) = true := by decide +kernel
+  exact eq_of_beq (List.all_eq_true.mp h c (C04_codes_enumerated c))
+
+/-- the `unreachable!()` in `S3ErrorCode::as_str` is unreachable: every code has a name -/
+theorem C04_as_str_total (c : ErrCode) : ∃ name, asStr c = some name := by
+  cases c with
+  | known c => exact ⟨variantIdent c, by simp [asStr, C04_static_name]⟩
+  | custom s =>
+    have hlen : staticCodeList.length ≤ usizeMax := by decide +kernel
+    have : asStaticStr (.custom s) = none := by
+      simp only [asStaticStr, asEnumTag]
+      exact List.getElem?_eq_none hlen
+    exact ⟨s, by simp [asStr, this]⟩
+
+/-- code names round trip: `from_bytes(code.as_str()) == code` for every generated code … -/
+theorem C04_code_name_roundtrip (c : Code) : (asStr (.known c)).bind fromBytes = some (.known c) := by
+  simp [asStr, C04_static_name, C04_from_bytes_name]
+
+/-- … and for every custom code that is UTF-8 and does not spell a generated name
+    (`Custom("AccessDenied")` reads back as the variant `AccessDenied`; only `from_bytes` builds codes on the
+    request path, and it never builds such a value) -/
+theorem C04_custom_code_roundtrip (s : Bytes) (hu : utf8Valid s = true) (hn : fromBytesArms.lookup s = none) :
+    (asStr (.custom s)).bind fromBytes = some (.custom s) := by
+  obtain ⟨name, hname⟩ := C04_as_str_total (.custom s)
+  have hlen : staticCodeList.length ≤ usizeMax := by decide +kernel
+  have h0 : asStaticStr (.custom s) = none := by
+    simp only [asStaticStr, asEnumTag]
+    exact List.getElem?_eq_none hlen
+  simp [asStr, h0, fromBytes, hn, hu]
+
+example : utf8Valid [88, 65, 109, 122] = true ∧ fromBytesArms.lookup [88, 65, 109, 122] = none := by decide +kernel
+
+/-- the `unwrap()` in `impl FromStr for S3ErrorCode` cannot fail: `from_bytes` answers on every UTF-8 input -/
+theorem C04_from_str_total (s : Bytes) (hu : utf8Valid s = true) : ∃ c, fromBytes s = some c := by
+  unfold fromBytes
+  cases fromBytesArms.lookup s with
+  | some c => exact ⟨_, rfl⟩
+  | none => exact ⟨.custom s, by simp [hu]⟩
+
+/-! ## rendering -/
+
+/-- `serialize_error` always produces a response (on the model: no `unreachable!()`; the XML writer writes
+    into a `Vec` and cannot fail) -/
+theorem C04_serialize_error_total (e : S3Error) (noDecl : Bool) : ∃ r, serializeError e noDecl = some r := by
+  obtain ⟨name, hname⟩ := C04_as_str_total e.code
+  simp [serializeError, hname]
+
+/-- strings XML 1.0 can carry: UTF-8 whose scalar values are XML `Char`s (this excludes U+0000–U+0008,
+    U+000B, U+000C, U+000E–U+001F, U+FFFE, U+FFFF, for which no XML document exists at all) -/
+def Carriable (name : Bytes) (e : S3Error) : Prop :=
+  xmlText name = true ∧ (∀ x, e.message = some x → xmlText x = true) ∧ (∀ x, e.requestId = some x → xmlText x = true)
+
+/-- no carriage return in the code name, the message or the request id -/
+def NoCR (name : Bytes) (e : S3Error) : Prop :=
+  (13 : UInt8) ∉ name ∧ (∀ x, e.message = some x → (13 : UInt8) ∉ x) ∧ (∀ x, e.requestId = some x → (13 : UInt8) ∉ x)
+
+/-- clause "rendered as a well-formed S3 error document carrying its code, message and request id" — the
+    full statement: an XML 1.0 reader of the error-document grammar reads the body back to exactly the
+    error's code name, message and request id, for all strings XML can carry.
+    FALSE of the code as it stands (`S3V.Findings.C04.C04_counterexample_cr`). -/
+def C04_error_doc_roundtrip_full : Prop :=
+  ∀ (e : S3Error) (noDecl : Bool) (r : Response) (name : Bytes),
+    serializeError e noDecl = some r → asStr e.code = some name → Carriable name e →
+    parseErrorDoc r.body = some { code := name, message := e.message, requestId := e.requestId }
+
+/-- the proved part: the same statement for strings without a carriage return (U+000D is written raw and an
+    XML processor turns it into U+000A; every other character, markup included, comes back unchanged) -/
+theorem C04_error_doc_roundtrip_partial (e : S3Error) (noDecl : Bool) (r : Response) (name : Bytes)
+    (hr : serializeError e noDecl = some r) (hname : asStr e.code = some name)
+    (hc : Carriable name e) (hcr : NoCR name e) :
+    parseErrorDoc r.body = some { code := name, message := e.message, requestId := e.requestId } := by
+  have hb : r.body = bodyOf name e noDecl := by
+    simp only [serializeError, hname] at hr
+    cases hr
+    rfl
+  rw [hb]
+  exact parseErrorDoc_bodyOf name e noDecl hc.1 hc.2.1 hc.2.2 hcr.1 hcr.2.1 hcr.2.2
+
+/-- the hypotheses are met by a realistic error: `NoSuchKey`, a message with markup, quotes and non-ASCII,
+    a request id -/
+example :
+    let e : S3Error := { code := .known .NoSuchKey,
+                         message := some [60, 107, 62, 32, 38, 32, 34, 195, 169, 34, 10],   -- `<k> & "é"\n`
+                         requestId := some [52, 52, 52, 50], statusCode := none, headers := none }
+    Carriable (variantIdent .NoSuchKey) e ∧ NoCR (variantIdent .NoSuchKey) e := by
+  refine ⟨⟨by decide, ?_, ?_⟩, ⟨by decide, ?_, ?_⟩⟩ <;> intro x hx <;> cases hx <;> decide
+
+/-- what the escaping guarantees on its own, for ALL byte strings: replacing the references in an escaped
+    text gives the text back (the `unescape ∘ escape = id` lemma of the reader used here) -/
+theorem C04_unescape_escape (s : Bytes) : unescape (escape s) = some s := unescape_escape s
+
+/-! ## status and headers -/
+
+/-- the documented statuses of a code: the documentation rows of a generated code; nothing for `Custom` -/
+def documented : ErrCode → List (Option Nat)
+  | .known c => docStatuses c
+  | .custom _ => []
+
+/-- clause "with the HTTP status that the table assigns to the code (or the backend's explicit override)":
+    the status of the response is the override when there is one, otherwise the table's status for the
+    code, otherwise (`Custom` codes and the codes whose table entry is `None`) 500 — … -/
+theorem C04_status_rule (e : S3Error) (noDecl : Bool) (r : Response) (hr : serializeError e noDecl = some r) :
+    r.status = (match e.statusCode with
+      | some s => s
+      | none => match codeStatus e.code with
+        | some s => s
+        | none => 500) := by
+  obtain ⟨name, hname⟩ := C04_as_str_total e.code
+  simp only [serializeError, hname] at hr
+  cases hr
+  cases hs : e.statusCode <;> simp [S3Error.status, hs]
+  cases codeStatus e.code <;> simp
+
+/-- … and that status is acceptable to the specification: equal to the override, or documented by AWS for
+    the code, or 500 where the documentation gives no status -/
+theorem C04_status_documented (e : S3Error) (noDecl : Bool) (r : Response) (hr : serializeError e noDecl = some r) :
+    statusAcceptable e.statusCode (documented e.code) r.status = true := by
+  have hs := C04_status_rule e noDecl r hr
+  cases hov : e.statusCode with
+  | some s => simp [hov] at hs; simp [statusAcceptable, hs]
+  | none =>
+    simp only [hov] at hs
+    cases hcode : e.code with
+    | custom s =>
+      simp [hcode, codeStatus] at hs
+      simp [statusAcceptable, documented, hs]
+    | known c =>
+      have hmem := C04_status_table_matches_docs c
+      simp only [hcode, codeStatus] at hs
+      cases hi : implStatus c with
+      | some s =>
+        rw [hi] at hs hmem
+        simp only [statusAcceptable, documented, Bool.or_eq_true, List.any_eq_true, decide_eq_true_eq]
+        left
+        exact ⟨some s, hmem, by simp [hs]⟩
+      | none =>
+        rw [hi] at hs hmem
+        simp only [statusAcceptable, documented, Bool.or_eq_true, Bool.and_eq_true, List.any_eq_true,
+          decide_eq_true_eq]
+        right
+        exact ⟨Or.inr ⟨none, hmem, rfl⟩, hs⟩
+
+/-- clause "with the headers the backend attached to the error": every header of the error is in the
+    response, as often as it was attached (in fact the error's header map *becomes* the response's) -/
+theorem C04_headers_rule (e : S3Error) (noDecl : Bool) (r : Response) (hr : serializeError e noDecl = some r) :
+    headersIncluded (e.headers.getD []) r.headers = true ∧ (∀ h, e.headers = some h → r.headers = h) := by
+  obtain ⟨name, hname⟩ := C04_as_str_total e.code
+  simp only [serializeError, hname] at hr
+  cases hr
+  cases hh : e.headers with
+  | none => simp [headersIncluded]
+  | some h => simp [headersIncluded]
+
+/-- an error without headers of its own is served as `content-type: application/xml` (with headers of its
+    own the content type set by `set_xml_body` is replaced together with everything else — flagged in the
+    report; the property does not speak about the content type) -/
+theorem C04_content_type_default (e : S3Error) (noDecl : Bool) (r : Response)
+    (hr : serializeError e noDecl = some r) (hh : e.headers = none) :
+    r.headers = [(hContentType, vApplicationXml)] := by
+  obtain ⟨name, hname⟩ := C04_as_str_total e.code
+  simp only [serializeError, hname] at hr
+  cases hr
+  simp [hh]
+
+/-! ## panic-freedom obligations that are logic -/
+
+/-- `fmt_content_length`: the `HeaderValue::try_from(s).unwrap()` never fails, because its argument is the
+    decimal text of the length -/
+theorem C04_fmt_content_length_total (len : Nat) : ∃ v, fmtContentLength len = some v := by
+  unfold fmtContentLength
+  split
+  · have hall : (fmtDec len).all headerValueByteOk = true := by
+      rw [List.all_eq_true]
+      intro c hc
+      have hd := fmtDec_all_digits len c hc
+      simp only [isDigit, Bool.and_eq_true, decide_eq_true_eq] at hd
+      simp only [headerValueByteOk, Bool.or_eq_true, Bool.and_eq_true, decide_eq_true_eq]
+      left; omega
+    exact ⟨fmtDec len, by simp [headerValueTryFrom, hall]⟩
+  · exact ⟨_, rfl⟩
 
 end S3V.C04
